@@ -1495,4 +1495,89 @@ theorem head?_isNone_iff {α} (l : List α) : l.head?.isNone = true ↔ l = [] :
   cases l <;> simp
 
 
+
+/-! ### strings -/
+theorem lexStringBody_plain (q c : Nat) (t : List Nat) (pos : Nat) (h1 : c ≠ 92) :
+    lexStringBody q false pos (c :: t) =
+      if c = 10 then .error (.eolInString, pos + 1)
+      else if c = q then .ok (t, pos + 1) else lexStringBody q false (pos + 1) t := by
+  rw [lexStringBody.eq_def]
+  simp [h1]
+
+theorem lexStringBody_short_ok (q : Nat) (hq : q ≠ 92) (hq10 : q ≠ 10) : ∀ (n : Nat) (body : List Nat),
+    body.length ≤ n → ∀ (pos : Nat) (rest : List Nat) (p : Nat),
+    (lexStringBody q false pos body = .ok (rest, p) ↔
+      ∃ pre, body = pre ++ q :: rest ∧ ShortItems q pre ∧ p = pos + pre.length + 1) := by
+  intro n
+  induction n with
+  | zero =>
+    intro body hl pos rest p
+    have : body = [] := by cases body <;> simp_all
+    subst this
+    simp [lexStringBody]
+  | succ n ih =>
+    intro body hl pos rest p
+    cases body with
+    | nil => simp [lexStringBody]
+    | cons c t =>
+      by_cases hc : c = 92
+      · subst hc
+        cases t with
+        | nil =>
+          simp only [lexStringBody]
+          constructor
+          · intro h; cases h
+          · rintro ⟨pre, e, _, _⟩
+            cases pre with
+            | nil => simp at e; exact absurd e.1.symm hq
+            | cons x pre' => have := congrArg List.length e; simp at this
+        | cons c2 t2 =>
+          simp only [lexStringBody]
+          rw [ih t2 (by simp at hl; omega)]
+          constructor
+          · rintro ⟨pre, e, hi, hp⟩
+            exact ⟨92 :: c2 :: pre, by simp [e], ShortItems.esc c2 hi, by simp [hp]; omega⟩
+          · rintro ⟨pre, e, hi, hp⟩
+            cases hi with
+            | nil => simp at e; exact absurd e.1.symm hq
+            | esc c' hi' =>
+              simp at e
+              exact ⟨_, e.2, hi', by simp at hp; omega⟩
+            | plain c' h1 _ _ _ => simp at e; exact absurd e.1.symm h1
+      · rw [lexStringBody_plain q c t pos hc]
+        by_cases hnl : c = 10
+        · subst hnl
+          simp only [if_true]
+          constructor
+          · intro h; cases h
+          · rintro ⟨pre, e, hi, _⟩
+            cases hi with
+            | nil => simp at e; exact absurd e.1.symm hq10
+            | esc c' _ => simp at e
+            | plain c' _ h2 _ _ => simp at e; exact absurd e.1.symm h2
+        · simp only [hnl, if_false]
+          by_cases hcq : c = q
+          · subst hcq
+            simp only [if_true, Except.ok.injEq, Prod.mk.injEq]
+            constructor
+            · rintro ⟨e1, e2⟩; exact ⟨[], by simp [e1], ShortItems.nil, by simp [e2]⟩
+            · rintro ⟨pre, e, hi, hp⟩
+              cases hi with
+              | nil => simp at e; simp at hp; exact ⟨e, by omega⟩
+              | esc c' _ => simp at e; exact absurd e.1 hc
+              | plain c' _ _ h3 _ => simp at e; exact absurd e.1.symm h3
+          · simp only [hcq, if_false]
+            rw [ih t (by simp at hl; omega)]
+            constructor
+            · rintro ⟨pre, e, hi, hp⟩
+              exact ⟨c :: pre, by simp [e], ShortItems.plain c hc hnl hcq hi, by simp [hp]; omega⟩
+            · rintro ⟨pre, e, hi, hp⟩
+              cases hi with
+              | nil => simp at e; exact absurd e.1 hcq
+              | esc c' _ => simp at e; exact absurd e.1 hc
+              | plain c' _ _ _ hi' =>
+                simp at e
+                exact ⟨_, e.2, hi', by simp at hp; omega⟩
+
+
 end PV.C04
